@@ -642,6 +642,9 @@ impl Monitor for C09 {
             return self.vector_case(idx, obs);
         }
         let mut rng = Rng::for_case("C09", self.seed, idx);
+        // the long-lived interpreter follows the boot interpreter's recording setting (a fresh, empty log per case)
+        self.xs.set_recording_enabled(false);
+        self.xs.set_recording_enabled(self.boot.is_recording());
         let word = WORDS[(idx % WORDS.len() as u64) as usize];
         let n = arity(word);
         for k in 0..48 {
@@ -687,6 +690,9 @@ impl Monitor for C09 {
                 obs.sample(J::obj(vec![("word", J::s(word)), ("operands", J::s(format!("{:?}", ops)))]));
             }
         }
+    }
+    fn boot_mut(&mut self) -> Option<&mut Xstate> {
+        Some(&mut self.boot)
     }
     fn describe(&mut self, idx: u64) -> String {
         format!("word {} with 48 operand tuples from seed {} index {}", WORDS[(idx % WORDS.len() as u64) as usize], self.seed, idx)
